@@ -227,28 +227,29 @@ func splitAsmArgs(s string) []string {
 // ---------- symbolic machine state ----------
 
 type aval struct {
-	t   *Term // integer value in [0, 2^64)
-	ptr bool
-	arr *Term
-	off *Term // element offset of the pointer inside arr
-	sl  *Val  // slice parameter the pointer was derived from (bounds for loads/stores)
-	nm  string
+	t    *Term // integer value in [0, 2^64)
+	ptr  bool
+	arr  *Term
+	off  *Term // element offset of the pointer inside arr
+	sl   *Val  // slice parameter the pointer was derived from (bounds for loads/stores)
+	nm   string
+	glob string // pointer to the first byte of this global table (LEAQ sym(SB), R)
 }
 
 type astate struct {
-	regs  map[string]aval
-	cf    *Term // carry flag (Bool) or nil if undefined
-	zf    *Term
-	lt    *Term // SF != OF
-	s     *State
-	res   map[string]*Term // result slots written
-	pc    int
-	seen  map[string]int
-	inRt  *asmRoutine
-	nload int
-	head  map[string]*Term // integer registers as they were at the last loop head (names R_0 in specs)
-	headPC   int           // length of the path condition right after the last loop head
-	cutFacts []*Term       // facts established by hints since the last loop head
+	regs     map[string]aval
+	cf       *Term // carry flag (Bool) or nil if undefined
+	zf       *Term
+	lt       *Term // SF != OF
+	s        *State
+	res      map[string]*Term // result slots written
+	pc       int
+	seen     map[string]int
+	inRt     *asmRoutine
+	nload    int
+	head     map[string]*Term // integer registers as they were at the last loop head (names R_0 in specs)
+	headPC   int              // length of the path condition right after the last loop head
+	cutFacts []*Term          // facts established by hints since the last loop head
 }
 
 func (a *astate) clone() *astate {
@@ -274,13 +275,13 @@ func signed64(t *Term) *Term {
 }
 
 type asmCtx struct {
-	fc     *FnCtx
-	file   map[string]*asmRoutine
-	rt     *asmRoutine
-	sig    *types.Signature
-	uit    ityp
-	nstore int
-	fname  string
+	fc       *FnCtx
+	file     map[string]*asmRoutine
+	rt       *asmRoutine
+	sig      *types.Signature
+	uit      ityp
+	nstore   int
+	fname    string
 	resAlias map[string]string // result name in the Go declaration -> name used in the contract header
 	entryPC  int               // length of the path condition after the preconditions and entry hints
 }
@@ -379,6 +380,9 @@ func (ac *asmCtx) load(a *astate, in asmInstr, o asmOperand) aval {
 		}
 		return v
 	case "mem":
+		if b, ok := a.regs[o.base]; ok && b.glob != "" {
+			return aval{t: ac.globalLoad(a, in, o, b.glob, 8)}
+		}
 		arr, idx := ac.memAddr(a, in, o, "load")
 		el := ac.fc.memSel(a.s.heap, arr, idx)
 		a.s.assume(mkAnd(mkLe(mkI(0), el), mkLt(el, mkInt(two64))))
@@ -386,6 +390,83 @@ func (ac *asmCtx) load(a *astate, in asmInstr, o asmOperand) aval {
 	}
 	ac.unsupported(in, "operand "+o.text)
 	return aval{}
+}
+
+// globalWords lays a constant table out as 64-bit little-endian words (gc/amd64 sizes).
+func (ac *asmCtx) globalWords(in asmInstr, name string) []*Term {
+	gi := ac.fc.eng.globals[name]
+	at, ok := gi.G.Type().Underlying().(*types.Pointer).Elem().Underlying().(*types.Array)
+	if !ok {
+		ac.unsupported(in, "global "+name+" is not an array")
+	}
+	sizes := types.SizesFor("gc", "amd64")
+	esz := sizes.Sizeof(at.Elem())
+	n := at.Len()
+	total := (esz*n + 7) / 8
+	words := make([]*big.Int, total)
+	for i := range words {
+		words[i] = new(big.Int)
+	}
+	put := func(off, sz int64, v *Term) {
+		if !v.isInt() || off/8 != (off+sz-1)/8 || v.Val.Sign() < 0 || v.Val.BitLen() > int(8*sz) {
+			ac.unsupported(in, "table "+name+": field that is not a plain unsigned constant inside one word")
+		}
+		words[off/8].Or(words[off/8], new(big.Int).Lsh(v.Val, uint(8*(off%8))))
+	}
+	switch gi.Kind {
+	case "table":
+		for i := int64(0); i < n; i++ {
+			put(i*esz, esz, gi.Ints[i])
+		}
+	case "structtable":
+		st := at.Elem().Underlying().(*types.Struct)
+		var fields []*types.Var
+		for i := 0; i < st.NumFields(); i++ {
+			fields = append(fields, st.Field(i))
+		}
+		offs := sizes.Offsetsof(fields)
+		for r := int64(0); r < n; r++ {
+			for i, f := range fields {
+				put(r*esz+offs[i], sizes.Sizeof(f.Type()), gi.Fields[f.Name()][r])
+			}
+		}
+	}
+	var out []*Term
+	for _, w := range words {
+		out = append(out, mkInt(w))
+	}
+	return out
+}
+
+// globalLoad reads size bytes (8, or 2 at the start of a word) from a constant table.
+func (ac *asmCtx) globalLoad(a *astate, in asmInstr, o asmOperand, name string, size int64) *Term {
+	if o.disp%8 != 0 {
+		ac.unsupported(in, "unaligned displacement into a table")
+	}
+	idx := mkI(o.disp / 8)
+	if o.index != "" {
+		if o.scale != 8 {
+			ac.unsupported(in, "index scale other than 8")
+		}
+		idx = mkAdd(idx, signed64(ac.regInt(a, in, o.index)))
+	}
+	words := ac.globalWords(in, name)
+	ac.fc.usedGlobals[name] = true
+	a.nload++
+	inb := mkAnd(mkLe(mkI(0), idx), mkLt(idx, mkI(int64(len(words)))))
+	ac.fc.oblige(a.s, fmt.Sprintf("%s.asm.tableload#%d", ac.fc.key, a.nload), "safety", nil,
+		fmt.Sprintf("load at line %d `%s` stays inside the table %s", in.line, in.text, name), inb, fmt.Sprintf("%s:%d", ac.fname, in.line))
+	a.s.assume(inb)
+	var w *Term
+	if idx.isInt() && idx.Val.IsInt64() && idx.Val.Int64() >= 0 && idx.Val.Int64() < int64(len(words)) {
+		w = words[idx.Val.Int64()]
+	} else {
+		w = mkSelect(ac.fc.tableTerm("TW_"+name, words), idx)
+	}
+	if size == 2 {
+		return mkMod(w, mkI(65536))
+	}
+	return w
 }
 
 func (ac *asmCtx) store(a *astate, in asmInstr, o asmOperand, v aval) {
@@ -440,6 +521,14 @@ func (ac *asmCtx) step(a *astate) []*astate {
 		return next()
 	case "LEAQ":
 		o := B(0)
+		if o.kind == "sym" {
+			gi := ac.fc.eng.globals[o.name]
+			if gi == nil || (gi.Kind != "structtable" && gi.Kind != "table") {
+				ac.unsupported(in, "address of a symbol that is not a constant table")
+			}
+			ac.store(a, in, B(1), aval{ptr: true, glob: o.name})
+			return next()
+		}
 		if o.kind != "mem" {
 			ac.unsupported(in, "LEAQ of "+o.text)
 		}
@@ -568,11 +657,41 @@ func (ac *asmCtx) step(a *astate) []*astate {
 		}
 		a.setLogicFlags(r)
 		return next()
-	case "SARQ", "SHRQ", "SHLQ":
-		if B(0).kind != "imm" {
-			ac.unsupported(in, "shift by a register")
+	case "MOVWLZX":
+		o := B(0)
+		b, ok := a.regs[o.base]
+		if o.kind != "mem" || !ok || b.glob == "" {
+			ac.unsupported(in, "16-bit load from anything but a constant table")
 		}
-		k := uint(B(0).imm.Uint64())
+		ac.store(a, in, B(1), aval{t: ac.globalLoad(a, in, o, b.glob, 2)})
+		return next()
+	case "RORW":
+		// rotate the low 16 bits; only the byte swap (count 8) is modelled
+		if B(0).kind != "imm" || B(0).imm.Int64() != 8 {
+			ac.unsupported(in, "RORW with a count other than 8")
+		}
+		x := intOf(ac.load(a, in, B(1)))
+		low := mkMod(x, mkI(65536))
+		r := mkAdd(mkSub(x, low), mkMul(mkMod(low, mkI(256)), mkI(256)), mkDiv(low, mkI(256)))
+		ac.store(a, in, B(1), aval{t: r})
+		a.cf, a.zf, a.lt = nil, nil, nil
+		return next()
+	case "SARQ", "SHRQ", "SHLQ":
+		var k uint
+		switch {
+		case B(0).kind == "imm":
+			k = uint(B(0).imm.Uint64())
+		case B(0).kind == "reg" && B(0).reg == "CX":
+			// count in CL, taken modulo 64; it has to be a literal at this point (after a
+			// split on the shift parameter, or pinned by a label invariant `CX == literal`)
+			c := mkMod(ac.regInt(a, in, "CX"), mkI(64))
+			if !c.isInt() {
+				ac.unsupported(in, "shift by a register whose value is not a literal on this path: "+c.String())
+			}
+			k = uint(c.Val.Uint64())
+		default:
+			ac.unsupported(in, "shift count operand")
+		}
 		x := intOf(ac.load(a, in, B(1)))
 		var r *Term
 		switch in.op {
@@ -874,6 +993,9 @@ func loopWritten(rt *asmRoutine, label string) map[string]bool {
 			if k := len(in.args); k > 0 && in.args[k-1].kind == "reg" {
 				w[in.args[k-1].reg] = true
 			}
+			if k := len(in.args); k > 0 && in.args[k-1].kind == "fp" {
+				w["fp:"+in.args[k-1].name] = true // a result slot written inside the loop
+			}
 		}
 	}
 	return w
@@ -947,6 +1069,58 @@ func (fc *FnCtx) runAsm(repo string) (err error) {
 	fc.oldHeap = s.snapshotHeap()
 	fc.usedAssumed["assembly ABI0 frame layout as named in the operands (name+off(FP)); flags after MULQ/DIVQ unspecified"] = true
 
+	// `split p in lo..hi` on an integer parameter: one run per value, the parameter being
+	// that literal (table indices and shift counts derived from it then fold to constants)
+	type splitCase struct {
+		name string
+		k    int64
+	}
+	cases := [][]splitCase{nil}
+	for _, sp := range fc.ct.Splits {
+		if sp.Table != "" || sp.Expr != nil || len(sp.For) > 0 {
+			return fmt.Errorf("%s: only `split param in lo..hi` is available for assembly routines", fc.key)
+		}
+		if pv, ok := fc.entry[sp.Var]; !ok || pv.K != VInt {
+			return fmt.Errorf("%s: split over %s: not an integer parameter", fc.key, sp.Var)
+		}
+		var next [][]splitCase
+		for _, c := range cases {
+			for k := sp.Lo; k <= sp.Hi; k++ {
+				next = append(next, append(append([]splitCase(nil), c...), splitCase{sp.Var, int64(k)}))
+			}
+		}
+		cases = next
+	}
+	entry0 := map[string]Val{}
+	for k, v := range fc.entry {
+		entry0[k] = v
+	}
+	for _, cs := range cases {
+		s := s.clone()
+		for k, v := range entry0 {
+			fc.entry[k] = v
+		}
+		for _, c := range cs {
+			pv := entry0[c.name]
+			s.assume(mkEq(pv.T, mkI(c.k)))
+			lit := intVal(mkI(c.k), pv.Typ)
+			for k, v := range entry0 {
+				if v.K == VInt && v.T == pv.T {
+					fc.entry[k] = lit // the parameter and its header alias
+				}
+			}
+			s.trace = append(s.trace, fmt.Sprintf("split %s=%d", c.name, c.k))
+		}
+		if err := ac.explore(s, rt); err != nil {
+			return err
+		}
+	}
+	return nil
+}
+
+// explore runs the routine from its first instruction in entry state s.
+func (ac *asmCtx) explore(s *State, rt *asmRoutine) error {
+	fc := ac.fc
 	start := &astate{regs: map[string]aval{}, s: s, res: map[string]*Term{}, seen: map[string]int{}, inRt: rt}
 	for _, h := range fc.ct.Hints {
 		if h.Where == "entry" {
@@ -1002,6 +1176,11 @@ func (fc *FnCtx) runAsm(repo string) (err error) {
 					}
 					sort.Strings(ws)
 					for _, r := range ws {
+						if strings.HasPrefix(r, "fp:") {
+							// written somewhere in the loop: unknown at the head
+							a.res[strings.TrimPrefix(r, "fp:")] = fc.fresh("asm_res_"+key, SInt)
+							continue
+						}
 						if old, ok := a.regs[r]; ok && old.ptr {
 							panic(unsupported(fmt.Sprintf("assembly: loop %s overwrites the pointer register %s", key, r)))
 						}
@@ -1030,7 +1209,24 @@ func (fc *FnCtx) runAsm(repo string) (err error) {
 					}
 					env2 := ac.regEnv(a)
 					for _, inv := range ls.Invs {
-						a.s.assume(fc.evalSpecBool(env2, inv.E))
+						f := fc.evalSpecBool(env2, inv.E)
+						a.s.assume(f)
+						// a conjunct `R == literal` pins the register to that literal
+						for _, cj := range splitConj(f, 64) {
+							if cj.Op == "=" && len(cj.Args) == 2 {
+								x, y := cj.Args[0], cj.Args[1]
+								if x.isInt() {
+									x, y = y, x
+								}
+								if y.isInt() {
+									for r, v := range a.regs {
+										if !v.ptr && v.t == x {
+											a.regs[r] = aval{t: y}
+										}
+									}
+								}
+							}
+						}
 					}
 					for _, h := range ls.Hints {
 						if h.Where == "head" {
